@@ -565,8 +565,25 @@ def _r1_r2_fkm(ctx):
 def _r1_r2_fkm_nonlinear(ctx):
     prog = ctx.prog
     fi = prog.func("pylife.stress.rainflow.fkm_nonlinear:FKMNonlinearDetector._hcm_process_sample")
-    from ._hcm import require_recognised_dispatch
-    require_recognised_dispatch(fi)
+    from ._hcm import require_recognised_dispatch, Restructured, dispatch_by_model
+    try:
+        require_recognised_dispatch(fi)
+    except Restructured:
+        # another control-flow shape: closing guard, Memory-3 test, continue-closing test and the slots handed to the handlers are
+        # decided by abstract execution against the HCM case table; the hysteresis handler must still remove exactly two residuals
+        preds = dispatch_by_model(ctx, prog, "R-C02-1", "closing / primary-path decisions")
+        odd = [k for k in preds if "?" in k]
+        for k in odd:
+            ctx.violated(fi, fi.node, "HCM predicate %s deviates from the rule's form (exact comparison up to a round-off guard)" % preds[k],
+                         rule="R-C02-1", text="predicate " + k)
+        h = prog.func("pylife.stress.rainflow.fkm_nonlinear:FKMNonlinearDetector._handle_case_c_ii")
+        n_pops = -sum(min(0, _stack_delta(s_, _stack_aliases(h.node))) for s_ in walk_function(h.node) if isinstance(s_, ast.stmt))
+        if n_pops == 2:
+            ctx.holds(fi, fi.node, "hysteresis handler receives slots -2/-1 (abstract execution) and pops exactly twice", rule="R-C02-2")
+        else:
+            ctx.violated(fi, fi.node, "hysteresis handler pops %d time(s); it must remove exactly the two residuals it closes" % n_pops,
+                         rule="R-C02-2", text="c_ii handler slots")
+        return
     loops = [s for s in fi.node.body if isinstance(s, ast.While)]
     if len(loops) != 1:
         raise AnalysisError("_hcm_process_sample: while loop not found")
@@ -769,10 +786,16 @@ def _r3_conservation(ctx):
     # FKM nonlinear: iz moves with len(self._residuals)
     det = "pylife.stress.rainflow.fkm_nonlinear:FKMNonlinearDetector."
     ps = prog.func(det + "_hcm_process_sample")
-    from ._hcm import require_recognised_dispatch
-    require_recognised_dispatch(ps)
+    from ._hcm import require_recognised_dispatch, Restructured, dispatch_by_model
+    restructured = False
+    try:
+        require_recognised_dispatch(ps)
+    except Restructured:
+        restructured = True
+        # counter bookkeeping by abstract execution: iz drops by two exactly with each closed hysteresis (the handler pops two)
+        dispatch_by_model(ctx, prog, "R-C02-3", "counter bookkeeping")
     cfg = CFG(ps.node)
-    loop = [s for s in ps.node.body if isinstance(s, ast.While)][0]
+    loop = ([s for s in ps.node.body if isinstance(s, ast.While)] or [None])[0]
 
     def callee_pops(call):
         tg = prog.resolve_call(ps, call)
@@ -790,7 +813,7 @@ def _r3_conservation(ctx):
                         n_p += _stack_delta(s, _stack_aliases(f.node))
                 tot.add(n_p)
         return tot
-    for path, how in _loop_paths(cfg, loop):
+    for path, how in ([] if restructured else _loop_paths(cfg, loop)):
         d_iz = 0
         d_res = {0}
         for n in path:
